@@ -316,8 +316,12 @@ def lift_exclusive(db, body_id, depth=0):
     """a private function all of whose call sites sit in one other private function is a piece of that function
     (extract-method refactoring): the role it plays (acquirer, releaser) is its caller's"""
     b = db.bodies.get(body_id)
-    if b is None or depth > 3 or b['kind'] == 'closure':
+    if b is None or depth > 3:
         return body_id
+    if b['kind'] == 'closure':
+        # a closure is a piece of the function it is written in
+        pb = db.by_path.get(b['meta'].get('parent_fn')) if b['meta'].get('parent_fn') else None
+        return lift_exclusive(db, pb['id'], depth + 1) if pb is not None else body_id
     m = b['meta']
     if m.get('pub') or m.get('impl_trait'):
         return body_id
